@@ -252,6 +252,54 @@ def h_lookup_real(ctx, n):
                                          pm.nw_dst.toUnsigned() == p['nw_dst']))
 
 
+def h_resubmit(ctx, field):
+  """The switch looks a frame up *as it is at that moment*: a frame that missed the table and was buffered is sent back to the table
+  (packet_out with the buffer id, a header rewrite and output to OFPP_TABLE - the virtual-IP / load-balancer pattern); the second lookup must
+  see the rewritten header.  Two entries match two symbolic values of the rewritten field, the frame's original value matches neither."""
+  from props import env
+  env.get_core()
+  of = ctx.pox('pox.openflow.libopenflow_01'); swm = ctx.pox('pox.datapaths.switch'); pkt = ctx.pox('pox.lib.packet'); addrs = ctx.pox('pox.lib.addresses')
+  from symx.core import SymBytes
+  sw = swm.SoftwareSwitch(dpid=3, ports=4, max_buffers=2)
+  sent = []
+  class Conn:
+    def send(c, msg): sent.append(msg)
+    def set_message_handler(c, h): pass
+  sw.set_connection(Conn())
+  outs = []
+  sw.addListenerByName('DpPacketOut', lambda e: outs.append((e.port.port_no, e.packet.pack())))
+  n = 4 if field == 'nw_dst' else 6
+  orig = list(ctx.bytes('orig', n)); e1 = list(ctx.bytes('e1', n)); e2 = list(ctx.bytes('e2', n)); new = list(ctx.bytes('new', n))
+  def same(a, b): return ctx.And(*[(x == y) for x, y in zip(a, b)])
+  ctx.assume(ctx.Not(same(orig, e1))); ctx.assume(ctx.Not(same(orig, e2))); ctx.assume(ctx.Not(same(e1, e2)))
+  def val(bs): return addrs.IPAddr(env.tobytes(ctx, bs)) if field == 'nw_dst' else addrs.EthAddr(env.tobytes(ctx, bs))
+  for prio, ev, port in ((100, e1, 2), (50, e2, 3)):
+    m = of.ofp_match(dl_type=0x0800); setattr(m, field, val(ev))
+    fm = of.ofp_flow_mod(command=0, priority=prio, match=m, actions=[of.ofp_action_output(port=port)])
+    sw.rx_message(sw._connection, of.ofp_flow_mod.unpack_new(fm.pack())[1])
+  mac = orig if field == 'dl_dst' else [2, 0, 0, 0, 0, 9]
+  ip = orig if field == 'nw_dst' else [10, 0, 0, 9]
+  frame = mac + [2, 0, 0, 0, 0, 1, 0x08, 0x00] + [0x45, 0, 0, 28, 0, 0, 0, 0, 64, 17, 0, 0, 10, 0, 0, 1] + ip + [0, 7, 0, 9, 0, 8, 0, 0]
+  raw = SymBytes(frame) if ctx.sym else bytes(frame)
+  sw.rx_packet(pkt.ethernet(raw), 1)
+  pins = [m for m in sent if isinstance(m, of.ofp_packet_in)]
+  ctx.check('the unmodified frame misses the table and is buffered', len(pins) == 1 and outs == [] and pins[0].buffer_id is not None and pins[0].buffer_id != 0xffffffff)
+  if len(pins) != 1: return
+  rewrite = of.ofp_action_nw_addr.set_dst(val(new)) if field == 'nw_dst' else of.ofp_action_dl_addr.set_dst(val(new))
+  po = of.ofp_packet_out(buffer_id=pins[0].buffer_id, in_port=1, actions=[rewrite, of.ofp_action_output(port=of.OFPP_TABLE)])
+  del sent[:]
+  sw.rx_message(sw._connection, of.ofp_packet_out.unpack_new(po.pack())[1])
+  ports = [p for p, _ in outs]
+  pins2 = [m for m in sent if isinstance(m, of.ofp_packet_in)]
+  if bool(same(new, e1)):
+    ctx.witness('hit-high'); ctx.check('re-submitted frame hits the entry that matches its rewritten header', ports == [2] and not pins2)
+  elif bool(same(new, e2)):
+    ctx.witness('hit-low'); ctx.check('re-submitted frame hits the entry that matches its rewritten header', ports == [3] and not pins2)
+  else:
+    ctx.witness('miss'); ctx.check('re-submitted frame that matches nothing is a table miss', ports == [] and len(pins2) == 1)
+  ctx.check('no error reply', not any(isinstance(m, of.ofp_error) for m in sent))
+
+
 def h_extract(ctx, kind, tagged):
   """field extraction from frame bytes: ofp_match.from_packet(ethernet(raw), in_port, spec_frags=True) vs a byte-offset extractor
   written from OpenFlow 1.0 sec. 3.4 (header parsing flowchart)"""
@@ -348,6 +396,8 @@ def obligations(tier):
                desc='add_entry binary insertion: table sorted by descending effective priority and complete after every one of n insertions (symbolic priorities, exact/wildcarded)'),
     Obligation('O3_lookup', h_lookup, [dict(n=k) for k in range(1, (3 if thorough else 2) + 1)], witnesses=('hit', 'miss'),
                desc='table sorted after every add_entry; lookup returns a matching entry of maximal effective priority; miss iff none'),
+    Obligation('O4_resubmit', h_resubmit, [dict(field=f) for f in ('nw_dst', 'dl_dst')], witnesses=('hit-high', 'hit-low', 'miss'),
+               desc='a buffered frame sent back to the table after a header rewrite (packet_out: set field, output OFPP_TABLE) is looked up by its current headers'),
     Obligation('O3_lookup_frame', h_lookup_real, [dict(n=1)] + ([dict(n=2)] if thorough else []), witnesses=('hit',),
                desc='entry_for_packet on a TCP frame with symbolic addresses/ports: parse + from_packet + lookup'),
   ]
